@@ -1213,6 +1213,27 @@ class Normalizer(object):
         if isinstance(st, (ast.FunctionDef, ast.AsyncFunctionDef,
                            ast.ClassDef)):
             return [st]
+        # N13: an empty separator joining what an in-repo generator yields
+        # is the concatenation of the items: `t = b''.join(g(a))` becomes
+        # `t = b''; for _x in g(a): t += _x` (then the generator is inlined)
+        if isinstance(st, ast.Assign) and len(st.targets) == 1 and \
+                isinstance(st.targets[0], ast.Name) and \
+                self._empty_join(st.value, ctx):
+            sep = st.value.func.value
+            tmp = self.fresh('_joined')
+            first = ast.copy_location(ast.Assign(
+                targets=[st.targets[0]], value=sep), st)
+            loop = ast.copy_location(ast.For(
+                target=ast.Name(id=tmp, ctx=ast.Store()),
+                iter=st.value.args[0],
+                body=[ast.copy_location(ast.AugAssign(
+                    target=ast.Name(id=st.targets[0].id, ctx=ast.Store()),
+                    op=ast.Add(), value=ast.Name(id=tmp, ctx=ast.Load())),
+                    st)],
+                orelse=[]), st)
+            ast.fix_missing_locations(loop)
+            self.stats['joins'] = self.stats.get('joins', 0) + 1
+            return [first] + self.inline_stmt(loop, ctx, depth)
         # generator consumed by a for loop
         if isinstance(st, ast.For) and isinstance(st.iter, ast.Call) and \
                 not st.orelse:
@@ -1300,6 +1321,67 @@ class Normalizer(object):
                     continue
         return e
 
+    def _empty_join(self, e, ctx):
+        if not (isinstance(e, ast.Call) and isinstance(e.func, ast.Attribute)
+                and e.func.attr == 'join' and len(e.args) == 1
+                and not e.keywords and isinstance(e.args[0], ast.Call)):
+            return False
+        sep = e.func.value
+        empty = (isinstance(sep, ast.Constant) and sep.value in (b'', '')) \
+            or (isinstance(sep, ast.Call) and isinstance(sep.func, ast.Name)
+                and sep.func.id in ('bytes', 'str') and not sep.args
+                and not sep.keywords)
+        if not empty:
+            return False
+        r = self.resolve_call(e.args[0], ctx)
+        if r is None:
+            return False
+        return contains(r[0].node.body, (ast.Yield,))
+
+    @staticmethod
+    def _returns_as_breaks(body):
+        """A generator whose last statement is its only loop and whose bare
+        `return`s all sit directly in that loop (not in a nested one) stops
+        exactly where a `break` would: the body with those returns turned
+        into breaks, or None."""
+        rets = [n for n in walk_shallow(body) if isinstance(n, ast.Return)]
+        if not rets:
+            return body
+        if any(r.value is not None for r in rets):
+            return None
+        if not body or not isinstance(body[-1], (ast.While, ast.For)) or \
+                body[-1].orelse:
+            return None
+        if any(isinstance(n, ast.Return) for n in walk_shallow(body[:-1])):
+            return None
+        loop = body[-1]
+
+        def conv(stmts):
+            out = []
+            for st in stmts:
+                if isinstance(st, ast.Return):
+                    out.append(ast.copy_location(ast.Break(), st))
+                    continue
+                if isinstance(st, (ast.While, ast.For)):
+                    if any(isinstance(n, ast.Return)
+                           for n in walk_shallow([st])):
+                        raise NotInlinable('return inside a nested loop')
+                    out.append(st)
+                    continue
+                if isinstance(st, ast.Try) and any(
+                        isinstance(n, ast.Return)
+                        for n in walk_shallow([st])):
+                    raise NotInlinable('return inside try')
+                for owner, f in sub_blocks(st):
+                    setattr(owner, f, conv(getattr(owner, f)))
+                out.append(st)
+            return out
+        try:
+            loop.body = conv(loop.body)
+        except NotInlinable:
+            return None
+        return body
+
     def inline_generator(self, loop, ctx, depth):
         r = self.resolve_call(loop.iter, ctx)
         if r is None:
@@ -1310,8 +1392,7 @@ class Normalizer(object):
               if isinstance(n, (ast.Yield, ast.YieldFrom))]
         if len(ys) != 1 or not isinstance(ys[0], ast.Yield):
             return None
-        if contains(body, (ast.Return,)):
-            return None
+        bare_returns = contains(body, (ast.Return,))
         # consumer body must not break (it would have to leave every loop of
         # the generator)
         for n in walk_shallow(loop.body):
@@ -1321,6 +1402,10 @@ class Normalizer(object):
             prefix, gbody = self.instantiate(target, recv, loop.iter, ctx)
         except NotInlinable:
             return None
+        if bare_returns:
+            gbody = self._returns_as_breaks(gbody)
+            if gbody is None:
+                return None
         state = dict(done=False)
 
         def place(stmts, in_loop):
